@@ -42,6 +42,8 @@ type C15Req struct {
 	HeadCL   int         `json:"headcl,omitempty"`  // HEAD / 304 in cl mode: the Content-Length announced for the body that is not sent
 	// CloseBody: the handler calls r.Body.Close() when it is done with the request (the usual defer)
 	CloseBody bool `json:"closebody,omitempty"`
+	// WriteString: the handler sends its body parts with io.WriteString (which uses the writer's WriteString method if it has one)
+	WriteString bool `json:"writestring,omitempty"`
 	// Again: after the header is out the handler calls WriteHeader once more with this status (ignored by the contract of http.ResponseWriter)
 	Again int `json:"again,omitempty"`
 	// Trailer (chunked responses): the handler announces the trailer field X-Sum and sets it after writing the body
@@ -114,6 +116,7 @@ func genC15Req(t *rapid.T) C15Req {
 	if r.Mode != "chunked" || bodiless {
 		r.Trailer = false
 	}
+	r.WriteString = rapid.IntRange(0, 3).Draw(t, "writestring") == 0
 	if rapid.IntRange(0, 5).Draw(t, "again") == 0 {
 		r.Again = rapid.SampledFrom([]int{200, 204, 304, 500, 100}).Draw(t, "againstatus")
 	}
@@ -300,7 +303,11 @@ func runC15(c C15Case) (out core.Outcome) {
 		}
 		off := 0
 		for k, n := range q.Writes {
-			_, _ = w.Write(c15RespBody(i, off, n))
+			if q.WriteString {
+				_, _ = io.WriteString(w, string(c15RespBody(i, off, n)))
+			} else {
+				_, _ = w.Write(c15RespBody(i, off, n))
+			}
 			off += n
 			if k == 0 && q.Again != 0 {
 				w.WriteHeader(q.Again) // superfluous: the header went out with the first write at the latest
@@ -423,6 +430,9 @@ func runC15(c C15Case) (out core.Outcome) {
 		}
 		if q.Again != 0 {
 			cls.Add("superfluous-writeheader")
+		}
+		if q.WriteString && len(q.Writes) > 0 {
+			cls.Add("body-via-io.WriteString:%s", q.Mode)
 		}
 		if q.CloseBody && i+1 < served {
 			cls.Add("handler-closes-body-then-request")
